@@ -64,6 +64,10 @@ type xferResult struct {
 	alive            int
 	aliveAt          string
 	stacks           string
+	progCalls        int
+	progPrev         int
+	progNonMono      int
+	progLast         int
 	hasherN          int
 	tornDown         bool
 	sendAfterTear    float64
@@ -81,6 +85,7 @@ type xferOpts struct {
 	metaOnly   map[string]bool // metadata-only selector (nil = off)
 	cfg        streamCfg
 	timeout    time.Duration
+	progress   bool
 	fault      *faultPlan
 }
 
@@ -170,7 +175,22 @@ func runXfer(src fsutil.FS, dest string, o xferOpts, log *evLog) *xferResult {
 	var sendRetAt, recvRetAt time.Time
 	done := make(chan struct{}, 2)
 	go func() {
-		res.sendErr = fsutil.Send(ctx, s, src, nil)
+		var cb func(int, bool)
+		if o.progress {
+			// plain variables on purpose: the callback is documented to be called with non-decreasing totals and one final call,
+			// which requires the calls to be serialised (the race detector sees it if they are not)
+			cb = func(n int, last bool) {
+				res.progCalls++
+				if n < res.progPrev {
+					res.progNonMono++
+				}
+				res.progPrev = n
+				if last {
+					res.progLast++
+				}
+			}
+		}
+		res.sendErr = fsutil.Send(ctx, s, src, cb)
 		sendRetAt = time.Now()
 		res.sendRet = true
 		log.add(logEv{End: "S", Kind: "return", N: b2i(res.sendErr != nil)})
@@ -285,6 +305,7 @@ func parseXferOpts(m Op) xferOpts {
 	if _, ok := m["cap"]; !ok {
 		o.cfg.Cap = 32
 	}
+	o.progress = m.boolean("progress")
 	if ms := m.num("timeout_ms"); ms > 0 {
 		o.timeout = time.Duration(ms) * time.Millisecond
 	}
@@ -515,7 +536,7 @@ func syncOnce(o Op, sched Op) map[string]interface{} {
 		"view": view, "before": snapsToJSON(before), "after": snapsToJSON(after),
 		"log": logJSON(log, false), "notif": notifsJSON(res, sent, dest),
 		"overlaps": []int32{res.overlaps[0], res.overlaps[1], res.overlaps[2], res.overlaps[3]}, "leaked": res.leaked,
-		"late": []int32{res.late[0], res.late[1]}, "alive": res.alive, "alive_at": res.aliveAt, "stacks": res.stacks,
+		"late": []int32{res.late[0], res.late[1]}, "alive": res.alive, "alive_at": res.aliveAt, "stacks": res.stacks, "prog": []int{res.progCalls, res.progNonMono, res.progLast},
 	}
 	if res.recvErr != nil {
 		out["recverr"] = res.recvErr.Error()
